@@ -40,10 +40,12 @@ class AntennaDriver:
         self.kind, self.noisy, self.lead = kind, noisy, lead
         self.known = []
         self.obs = 0
+        self.mc_seen = {}
 
     def stats(self):
-        st = {'waveform_observations': self.obs}
+        st = {'waveform_observations': self.obs, 'hit_but_not_mc_truth': self.mc_seen.get((True, False), 0)}
         self.obs = 0
+        self.mc_seen = {}
         return st
 
     def cleanup(self):
@@ -53,7 +55,9 @@ class AntennaDriver:
         np.random.seed(12345)
         kw = dict(position=(0, 0, -100), noisy=self.noisy)
         if self.noisy:
-            kw.update(freq_range=(0.05, 0.4), noise_rms=4.0, unique_noise_waveforms=3)
+            # for a system the front end doubles the noise: rms 8 puts the noise alone at 1.5 sigma of the threshold after the
+            # front end (it triggers some windows by itself) and at 3 sigma before it (hardly ever) -- is_hit_mc_truth can tell
+            kw.update(freq_range=(0.05, 0.4), noise_rms=(8.0 if self.kind == 'system' else 4.0), unique_noise_waveforms=3)
         ant = ThrAntenna(**kw)
         if self.kind == 'system':
             self.obj = (DelaySystemLead if self.lead else DelaySystem)(ant)
@@ -141,6 +145,14 @@ class AntennaDriver:
                                  [i for i, w in enumerate(allw) if any(w is x for x in waves)])
             if op == 'IsHit' and hit != (len(want) > 0):
                 raise Divergence('is_hit', len(want) > 0, hit)
+            if op == 'IsHit':
+                # Monte Carlo truth: hit by a waveform over whose window the noise alone -- as this object sees noise, i.e. through
+                # the front end for a system -- would not have triggered; without noise it is is_hit
+                mc = bool(o.is_hit_mc_truth)
+                want_mc = bool(hit) if not self.noisy else any(not o.trigger(o.make_noise(w.times)) for w in o.waveforms)
+                self.mc_seen[(bool(hit), want_mc)] = self.mc_seen.get((bool(hit), want_mc), 0) + 1
+                if mc != want_mc:
+                    raise Divergence('is_hit_mc_truth (is_hit = %s)' % hit, want_mc, mc)
         elif op == 'ReceiveFail':
             s_ = last['s']
             good = pyrex.Signal(grid(s_['t0'], len(s_['v'])), [float(x) for x in s_['v']], value_type='voltage')
